@@ -84,7 +84,7 @@ int main() {
 
 def build(pool=None, tag='core', shards=16, force=False):
     pool = pool if pool is not None else nopgen.core_pool()
-    srcs = [os.path.join(VERIF, 'harness', 'glue.h'), os.path.join(VERIF, 'harness', 'prim.cpp'), os.path.join(VERIF, 'tools', 'nopgen.py'),
+    srcs = [os.path.join(VERIF, 'harness', 'glue.h'), os.path.join(VERIF, 'harness', 'prim.cpp'), os.path.join(VERIF, 'harness', 'objs.cpp'), os.path.join(VERIF, 'tools', 'nopgen.py'),
             os.path.abspath(__file__), os.path.join(VERIF, 'tools', 'common.py')]
     key = sha_files(srcs + tree_files(os.path.join(REPO, 'include')), extra=tag + '|'.join(nopgen.desc(t) for t in pool))
     out = os.path.join(BUILD, 'h-%s-%s' % (tag, key))
@@ -152,10 +152,17 @@ def build(pool=None, tag='core', shards=16, force=False):
     def cc_prim(_):
         r = run([CXX] + CXXFLAGS + ['-I' + out, prim_src, '-o', os.path.join(out, 'prim')], timeout=1200)
         return prim_src, r
+
+    def cc_objs(_):
+        src = os.path.join(VERIF, 'harness', 'objs.cpp')
+        r = run([CXX] + CXXFLAGS + [src, '-o', os.path.join(out, 'objs')], timeout=1200)
+        return src, r
     with cf.ThreadPoolExecutor(NCPU) as ex:
         fut = ex.submit(cc_prim, None)
+        fut2 = ex.submit(cc_objs, None)
         res = list(ex.map(cc, files))
         res.append(fut.result())
+        res.append(fut2.result())
     bad = [(p, r) for p, r in res if r.returncode != 0]
     if bad:
         p, r = bad[0]
